@@ -22,10 +22,19 @@ W = {
 
 
 def profile(r, tier, index):
-    return {
-        "mailboxes": ["inbox", "lists"][: r.randint(1, 2)], "sessions": r.randint(1, 3), "weights": W, "init_hi": 5,
-        "ops_lo": 8, "ops_hi": 40 if tier == "thorough" else 28, "mode": "sequential", "bad_set_p": 0.02, "examine_p": 0.1,
+    conc = r.random() < 0.35
+    prof = {
+        "mailboxes": ["inbox", "lists"][: r.randint(1, 2)], "sessions": r.randint(1, 3) if not conc else r.randint(2, 3), "weights": W, "init_hi": 5,
+        "ops_lo": 8, "ops_hi": 40 if tier == "thorough" else 28, "mode": "concurrent" if conc else "sequential", "bad_set_p": 0.02, "examine_p": 0.1,
+        "quiet_p": 0.1 if conc else 0.3,
     }
+    if conc:
+        # deliveries racing commands of several sessions: stream monitors + at quiescence every
+        # delivered file must have been announced (disk vs the sessions' replayed views)
+        prof["compare"] = False
+        prof["weights"] = dict(W, fetch=5, store=6, deliver=6, noop=3, idle=0.5, wait=0.5)
+        prof["fetch_items"] = ["(BODY.PEEK[])", "(UID FLAGS BODY.PEEK[])", "(FLAGS)"]
+    return prof
 
 
 def post(prog, r, tier, prof):
@@ -40,6 +49,9 @@ def post(prog, r, tier, prof):
             out.append({"s": s, "op": "expunge"})
         out.append(op)
     prog["ops"] = out
+    if prog["mode"] == "concurrent":
+        for op in prog["ops"]:
+            op["when"] = {"delay": r.choice((0.0, 0.0, 0.001, 0.01, 0.05, 0.3, 1.2))}
     return prog
 
 
